@@ -88,9 +88,46 @@ impl Out {
     }
 }
 
+/// The routes to the entries of a code map must agree (`iter`, `as_slice`, `Deref`, `AsRef`,
+/// `Borrow`, `&CodeMap: IntoIterator`, `CodeMap: IntoIterator`).
+fn map_routes_agree(m: &CodeMap) -> Result<Map, String> {
+    let by_iter = map_of(m);
+    let t = |e: &json_syntax::code_map::Entry| (e.span.start(), e.span.end(), e.volume);
+    let by_slice: Map = m.as_slice().iter().map(t).collect();
+    let by_deref: Map = m[..].iter().map(t).collect();
+    let by_asref: Map = AsRef::<[json_syntax::code_map::Entry]>::as_ref(m).iter().map(t).collect();
+    let by_borrow: Map = std::borrow::Borrow::<[json_syntax::code_map::Entry]>::borrow(m).iter().map(t).collect();
+    let mut by_ref_into: Map = Vec::new();
+    for (i, e) in m {
+        if i != by_ref_into.len() {
+            return Err("&CodeMap: IntoIterator yields wrong indices".into());
+        }
+        by_ref_into.push(t(e));
+    }
+    if by_slice != by_iter || by_deref != by_iter || by_asref != by_iter || by_borrow != by_iter || by_ref_into != by_iter || m.len() != by_iter.len() {
+        return Err("the routes to the code map's entries disagree".into());
+    }
+    if by_iter.len() <= 32 {
+        let mut owned: Map = Vec::new();
+        for (i, e) in m.clone() {
+            if i != owned.len() {
+                return Err("CodeMap: IntoIterator yields wrong indices".into());
+            }
+            owned.push(t(&e));
+        }
+        if owned != by_iter {
+            return Err("CodeMap: IntoIterator disagrees with iter()".into());
+        }
+    }
+    Ok(by_iter)
+}
+
 fn norm<E>(r: Result<(Value, CodeMap), Error<E>>) -> Out {
     match r {
-        Ok((v, m)) => Out::Ok(v, map_of(&m)),
+        Ok((v, m)) => match map_routes_agree(&m) {
+            Ok(map) => Out::Ok(v, map),
+            Err(why) => Out::Broken(why),
+        },
         Err(e) => match ek(&e) {
             Ok(k) => Out::Err(k),
             Err(s) => Out::Broken(s),
@@ -140,6 +177,62 @@ impl<'a> Iterator for Obs<'a> {
                 None
             }
         }
+    }
+}
+
+/// The payload of the environment's error answer.
+#[derive(Clone, Copy, Debug, PartialEq, Eq)]
+pub struct Tag(pub u32);
+pub const TAG: Tag = Tag(0xE44);
+
+/// A character source that answers the characters of `s` and then *an error* (once); being
+/// pulled again after that is recorded.
+pub struct FailingObs<'a> {
+    chars: std::str::Chars<'a>,
+    failed: bool,
+    pub pulls: Pulls,
+}
+
+impl<'a> Iterator for FailingObs<'a> {
+    type Item = Result<char, Tag>;
+    fn next(&mut self) -> Option<Self::Item> {
+        self.pulls.items += 1;
+        if self.failed {
+            self.pulls.after_error = true;
+            if self.pulls.items > 100_000 {
+                panic!("the parser keeps polling its input after an error answer");
+            }
+            return None;
+        }
+        match self.chars.next() {
+            Some(c) => Some(Ok(c)),
+            None => {
+                self.failed = true;
+                Some(Err(TAG))
+            }
+        }
+    }
+}
+
+/// `parse_utf8_with` over a source that fails after the last character of `text`. Returns the
+/// normalised result, what was pulled, and whether a `Stream` error carried the payload intact.
+pub fn observed_failing(text: &str, o: Options) -> (Out, Pulls, bool) {
+    let mut obs = FailingObs {
+        chars: text.chars(),
+        failed: false,
+        pulls: Pulls::default(),
+    };
+    let r = explore::guard(|| {
+        let r = Value::parse_utf8_with(&mut obs, o);
+        let intact = match &r {
+            Err(Error::Stream(_, e)) => *e == TAG,
+            _ => true,
+        };
+        (norm(r), intact)
+    });
+    match r {
+        Ok((out, intact)) => (out, obs.pulls, intact),
+        Err(p) => (Out::Broken(format!("panic: {p}")), obs.pulls, true),
     }
 }
 
